@@ -51,6 +51,7 @@ func init() {
 			{ID: "C01.21", Desc: "the entry's Date is the decoded Date field", Run: func(c *Ctx) { ruleDateAccessorPure(c, "C01.21") }, MinSites: 1},
 			{ID: "C01.22", Desc: "header dates are decoded leniently everywhere", Run: func(c *Ctx) { ruleDatesThroughTheDecoder(c, "C01.22") }, MinSites: 1},
 			{ID: "C01.23", Desc: "age and lifetime saturate at the same bound", Run: func(c *Ctx) { ruleAgeNotCappedLower(c, "C01.23") }, MinSites: 1},
+			{ID: "C01.24", Desc: "max-stale with an argument tolerates that much staleness, max-stale=0 none", Run: func(c *Ctx) { ruleMaxStaleLimited(c, "C01.24") }, MinSites: 1},
 		},
 	})
 }
